@@ -334,7 +334,7 @@ impl<'a, 'tcx> BodyCx<'a, 'tcx> {
             _ => {
                 if let Some(v) = self.scalar_of(&c.const_) {
                     let _ = write!(o, ",\"v\":{}", esc(&v));
-                } else if ty.is_floating_point() || ty.is_str() || matches!(ty.kind(), ty::Ref(..)) {
+                } else if ty.is_floating_point() || ty.is_str() || ty.is_integral() || ty.is_bool() || matches!(ty.kind(), ty::Ref(..)) {
                     let s = format!("{}", c.const_);
                     if s.len() < 200 {
                         let _ = write!(o, ",\"s\":{}", esc(&s));
